@@ -163,7 +163,7 @@ def compare(run, g, obs, tab, key, text):
         for c, pn in enumerate(pv['nums']):
             x = tab.vals[pn['s']]
             a = float(np.asarray(v.pose)[c])
-            if not (GG.bits(a) == GG.bits(x) or (pn['via'] == 'wrap' and wrap_ok(a, x)) or (a == x and x != 0)):
+            if not ((pn['via'] == 'wrap' and wrap_ok(a, x)) or (pn['via'] != 'wrap' and (GG.bits(a) == GG.bits(x) or (a == x and x != 0)))):
                 return fail('vertex-number', 'vertex %r component %d is %r, the line says %r' % (v.id, c, a, x))
     for j, (e, pe) in enumerate(zip(g._edges, E)):
         cls = 'odo' if type(e) is EdgeOdometry else ('lm' if type(e) is EdgeLandmark else 'custom')
@@ -197,7 +197,7 @@ def compare(run, g, obs, tab, key, text):
                 return fail('measurement', 'edge %d measurement %r, the line says %r (normalised %r)' % (j, est.tolist(), xs, qn.tolist()))
         else:
             for c, (a, x, via) in enumerate(zip(est, xs, vias)):
-                if not (GG.bits(a) == GG.bits(x) or (via == 'wrap' and wrap_ok(a, x)) or (a == x and x != 0)):
+                if not ((via == 'wrap' and wrap_ok(a, x)) or (via != 'wrap' and (GG.bits(a) == GG.bits(x) or (a == x and x != 0)))):
                     return fail('measurement', 'edge %d measurement component %d is %r, the line says %r' % (j, c, a, x))
         if cls == 'lm':
             off = np.asarray(e.offset, dtype=float)
@@ -217,7 +217,7 @@ def compare(run, g, obs, tab, key, text):
         got = np.asarray(reg[(p['tag'], tab.ids[p['id']])].value, dtype=float)
         for c, pn in enumerate(last['nums']):
             x = tab.vals[pn['s']]
-            if not (GG.bits(got[c]) == GG.bits(x) or (pn['via'] == 'wrap' and wrap_ok(got[c], x)) or (got[c] == x and x != 0)):
+            if not ((pn['via'] == 'wrap' and wrap_ok(got[c], x)) or (pn['via'] != 'wrap' and (GG.bits(got[c]) == GG.bits(x) or (got[c] == x and x != 0)))):
                 return fail('parameters', 'parameter %r component %d is %r, the line says %r' % (p['tag'], c, got[c], x))
     return True
 
